@@ -558,24 +558,42 @@ func (m *Mast) SeekIter(ctx context.Context, k interface{}, f func(interface{}, 
 	if err != nil {
 		return err
 	}
-	keyLayer, err := m.keyLayer(k, m.branchFactor)
-	if err != nil {
-		return fmt.Errorf("layer: %w", err)
+	// Walk down to where k is or would be, remembering at each level the
+	// index of the first key that is not smaller than k.
+	path := []pathEntry{}
+	for {
+		var cmpErr error
+		i := sort.Search(len(node.Key), func(i int) bool {
+			if cmpErr != nil {
+				return true
+			}
+			var cmp int
+			cmp, cmpErr = m.keyOrder(k, node.Key[i])
+			return cmp <= 0
+		})
+		if cmpErr != nil {
+			return fmt.Errorf("keyCompare: %w", cmpErr)
+		}
+		path = append(path, pathEntry{node, i})
+		if i < len(node.Key) {
+			cmp, err := m.keyOrder(k, node.Key[i])
+			if err != nil {
+				return fmt.Errorf("keyCompare: %w", err)
+			}
+			if cmp == 0 {
+				break
+			}
+		}
+		if node.Link[i] == nil {
+			break
+		}
+		node, err = m.load(ctx, node.Link[i])
+		if err != nil {
+			return err
+		}
 	}
-	options := findOptions{
-		targetLayer:   uint8min(keyLayer, m.height),
-		currentHeight: m.height,
-	}
-	node, i, err := node.findNode(ctx, m, k, &options)
-	if err != nil {
-		return err
-	}
-	if i >= len(node.Key) ||
-		options.targetLayer != options.currentHeight {
-		return nil
-	}
-	for i := len(options.path) - 1; i >= 0; i-- {
-		entry := options.path[i]
+	for i := len(path) - 1; i >= 0; i-- {
+		entry := path[i]
 		err = entry.node.seekIter(ctx, entry.linkIndex, f, m)
 		if err == ErrIterDone {
 			return nil
